@@ -79,6 +79,38 @@ def c18_joint(op, impl, model, stats):
         return "%sdecoding %d input bytes allocated %d bytes; model count %d (limit %d)" % (cls, n, used, cost, limit)
     return None
 
+_C12_MODEL = _re.compile(r"^ok (\d+) exact=(\d+) listed=([01]) pop=([01]) wf=([01])$")
+
+def c12_project(op, a):
+    """`maxsize`: the property constrains the constant only through `encMax <= N` (and `=` for the listed tight
+    kinds) - theorem c12_decided_by_encMax - not through the way the code computes it; the numbers are compared
+    by the joint rule below, not by equality with the model's mirror of the code (false alarm on a neutral
+    change that sizes an enum's discriminant from its largest index instead of its variant count; DESIGN 0.4)."""
+    if op.startswith("maxsize ") and a.startswith("ok "):
+        return "ok"
+    return a
+
+def c12_joint(op, impl, model, stats):
+    """N = the real T::POSTCARD_MAX_SIZE; model: maxSize (mirror of the code), encMax (exact supremum, proved).
+    violation iff N < encMax (some value - exactWitness - does not fit: bound_iff_encMax_le), or the type is of a
+    kind the property lists as tight and N > encMax (not attained)."""
+    if not op.startswith("maxsize "): return None
+    mm = _C12_MODEL.match(model)
+    if not mm or not impl.startswith("ok "): return None
+    try: n = int(impl[3:].strip())
+    except ValueError: return None
+    msz, exact, listed, pop, wf = (int(mm.group(i)) for i in range(1, 6))
+    stats["maxsize_types"] = stats.get("maxsize_types", 0) + 1
+    if n != msz: stats["constant_differs_from_code_mirror"] = stats.get("constant_differs_from_code_mirror", 0) + 1
+    if listed: stats["listed_tight_types"] = stats.get("listed_tight_types", 0) + 1
+    if not wf: return None
+    if n < exact:
+        return "POSTCARD_MAX_SIZE = %d but the longest encoding of a value of this type has %d bytes (model: encMax; witness: exactWitness)%s" % (
+            n, exact, "" if pop else " [type has an uninhabited component: encMax may not be attained]")
+    if listed and n != exact:
+        return "POSTCARD_MAX_SIZE = %d is not attained: the longest encoding of this tight kind has %d bytes" % (n, exact)
+    return None
+
 def c20_project(op, a):
     """`rec`: the property lets the encoder choose between push and extend ("through whichever of its push/extend
     methods the encoder chooses"), so only the concatenated payload, in order, is compared - not the call structure
@@ -213,6 +245,8 @@ PROPS = {
     },
     "C12": {
         "gens": ["C12"],
+        "project": c12_project,
+        "joint": c12_joint,
         "derive_programs": {"quick": 40, "thorough": 300},
         "rule": "heapless::Vec<(), N> for N at every varint-width boundary up to 2^22; derive programs always contain 127/128/129/130-variant enums (all-unit and widest-last); `maxsize <type description>`: T::POSTCARD_MAX_SIZE of a concrete Rust type vs the model's maxSize, for 66 built-in instantiations (every impl: ints, NonZero*, floats, bool, char, unit, PhantomData, Option, Result, arrays, tuples 1..6, the four ranges, refs/Box/Rc/Arc, heapless Vec/String at capacities 0,1,127,128,16383,16384, hand-written derives incl. generics) plus random #[derive(MaxSize)] programs generated from the seed with the WORKSPACE derive (structs unit/tuple/named, enums with 0,1,2,..,127,128,129 variants, nested); harness oracle per type: every candidate (one per variant, extremes of every field) and 24 random values encode within the constant, a buffer of that size suffices, and for the tight kinds the constant is attained; non-trivial = distinct type",
         "nontrivial": lambda op, a: True,
